@@ -37,6 +37,28 @@ void c_trace_null(void)
   __CPROVER_assert(isnull, "REACH tracer_null.non_null"); __CPROVER_assert(!isnull, "REACH tracer_null.null");
   __CPROVER_assert(0, "REACH! c_trace_null");
 }
+/* "one record per accepted call" under recursion from a side effect: the inner call's record first (its agent dies first), then the
+ * outer call's, each with its own expectation text, argument and returned value */
+unsigned nondet_uint(void);
+void c_trace_nested(void)
+{
+  int x0 = nondet_int(); unsigned u0 = nondet_uint(); struct OBS o;
+  C17_NESTED(x0, u0, &o);
+  __CPROVER_assert(vp_exc == 0 && vp_rep_n == 0 && !vp_terminated && o.ret == 7 && o.x == 1, "[C17,C08] POST nested.both_calls_are_accepted_and_return_their_own_values");
+  __CPROVER_assert(vp_tr_n == 2, "[C17] POST nested.exactly_one_record_per_accepted_call");
+  const struct vp_string *mi = &vp_tr[0].msg, *mo = &vp_tr[1].msg;
+  __CPROVER_assert(!mi->overflow && !mo->overflow, "[C17] MODEL token capacity sufficient");
+  int ni = 0, no = 0; unsigned long vi[4], vo[4];
+  for (int k = 0; k < VP_TOK_CAP; k++) {
+    if (k < mi->n && (mi->t[k].kind == VP_T_INT || mi->t[k].kind == VP_T_UINT)) { if (ni < 4) vi[ni] = mi->t[k].v; ni++; }
+    if (k < mo->n && (mo->t[k].kind == VP_T_INT || mo->t[k].kind == VP_T_UINT)) { if (no < 4) vo[no] = mo->t[k].v; no++; }
+  }
+  __CPROVER_assert(mi->n >= 1 && mi->t[0].kind == VP_T_CSTR && mi->t[0].p != 0 && ((const char *)mi->t[0].p)[2] == 'i', "[C17] POST nested.the_first_record_is_that_of_the_inner_call_with_its_expectation_text");
+  __CPROVER_assert(mo->n >= 1 && mo->t[0].kind == VP_T_CSTR && mo->t[0].p != 0 && ((const char *)mo->t[0].p)[2] == 'o', "[C17] POST nested.the_second_record_is_that_of_the_outer_call_with_its_expectation_text");
+  __CPROVER_assert(ni == 3 && vi[0] == 1 && (unsigned)vi[1] == u0 && (unsigned)vi[2] == u0 + 1, "[C17] POST nested.the_inner_record_carries_the_inner_argument_and_returned_value");
+  __CPROVER_assert(no == 3 && vo[0] == 1 && (int)vo[1] == x0 && (int)vo[2] == 7, "[C17] POST nested.the_outer_record_carries_the_outer_argument_and_returned_value_only");
+  __CPROVER_assert(0, "REACH! c_trace_nested");
+}
 /* a rejected call whose argument is a null char pointer: the no-match report prints it without touching it (C18), one fatal report (C15) */
 void c_null_report(void)
 {
